@@ -740,6 +740,18 @@ def _v_logged(I, a):
         return val
     I.store(a[1], 0, 4)
     return I.mkfloat(0.0)
+@ext('verif_token_int')
+def _v_tok_int(I, a):
+    nm = _name(I, a[0]); lo = sext(a[1], 64); hi = sext(a[2], 64)
+    if I.inputs is not None: return I.new_cstr(str(I.inputs.integer(nm, lo, hi)), 'token')
+    v = z3.Int(nm); I.syms[nm] = ('int', v); I.add_pc(z3.And(v >= lo, v <= hi))
+    return I.new_cstr(new_token(I, SV(v)).decode('latin1'), 'token')
+@ext('verif_token_double')
+def _v_tok_double(I, a):
+    nm = _name(I, a[0])
+    if I.inputs is not None: return I.new_cstr(repr(float(I.inputs.real(nm))), 'token')
+    I.syms[nm] = ('real', z3.Real(nm))
+    return I.new_cstr(new_token(I, RV.var(nm)).decode('latin1'), 'token')
 @ext('verif_param')
 def _v_param(I, a):
     nm = _name(I, a[0]); v = I.ext.get('params', {}).get(nm)
@@ -751,3 +763,178 @@ def _v_need_module(I, a): return None
 @ext('verif_log_accesses')
 def _v_log(I, a):
     I.logging = bool(a[0]); return None
+
+# ------------------------------------------------------------------ file-system model (DESIGN.md 3.5): in-memory files + operation trace
+class FS:
+    def __init__(self):
+        self.files = {}      # name -> list of byte values
+        self.trace = []      # (op, name, extra)
+        self.handles = {}    # id -> dict(name, pos, mode)
+        self.next_id = 1
+        self.fail = {}       # op -> remaining forced failures (fault injection)
+def _fs(I):
+    if I.fs is None: I.fs = FS()
+    return I.fs
+def _set_errno(I, v):
+    p = _errno(I, []); I.store(p, v, 4)
+ENOENT = 2
+@ext('access')
+def _access(I, a):
+    fs = _fs(I); nm = I.cstr(a[0]); fs.trace.append(('access', nm, None))
+    if nm in fs.files: return 0
+    _set_errno(I, ENOENT); return mask(-1, 32)
+@ext('rename')
+def _rename(I, a):
+    fs = _fs(I); old = I.cstr(a[0]); new = I.cstr(a[1])
+    if fs.fail.get('rename', 0) > 0:
+        fs.fail['rename'] -= 1; fs.trace.append(('rename-failed', old, new)); _set_errno(I, 13); return mask(-1, 32)
+    if old not in fs.files:
+        fs.trace.append(('rename-failed', old, new)); _set_errno(I, ENOENT); return mask(-1, 32)
+    fs.files[new] = fs.files.pop(old); fs.trace.append(('rename', old, new))
+    return 0
+@ext('remove', 'unlink')
+def _remove(I, a):
+    fs = _fs(I); nm = I.cstr(a[0])
+    if nm in fs.files:
+        del fs.files[nm]; fs.trace.append(('remove', nm, None)); return 0
+    _set_errno(I, ENOENT); return mask(-1, 32)
+@ext('_ZNSt12__basic_fileIcEC1EP15pthread_mutex_t', '_ZNSt12__basic_fileIcEC2EP15pthread_mutex_t')
+def _bf_ctor(I, a):
+    I.store(a[0], NULL, 8); I.store((a[0][0], a[0][1] + 8), 0, 1); return None
+@ext('_ZNSt12__basic_fileIcED1Ev', '_ZNSt12__basic_fileIcED2Ev')
+def _bf_dtor(I, a):
+    h = I.load(a[0], 8, 'ptr')
+    if h != NULL: _bf_close(I, a)
+    return None
+def _bf_handle(I, this):
+    h = I.load(this, 8, 'ptr')
+    if h == NULL: return None
+    return _fs(I).handles.get(h[1])
+@ext('_ZNKSt12__basic_fileIcE7is_openEv')
+def _bf_is_open(I, a): return 0 if I.load(a[0], 8, 'ptr') == NULL else 1
+@ext('_ZNSt12__basic_fileIcE4openEPKcSt13_Ios_Openmodei')
+def _bf_open(I, a):
+    fs = _fs(I); nm = I.cstr(a[1]); mode = a[2]
+    if I.load(a[0], 8, 'ptr') != NULL: return NULL
+    rd = bool(mode & 8); wr = bool(mode & 16); app = bool(mode & 1); trunc = bool(mode & 32)
+    if fs.fail.get('open', 0) > 0:
+        fs.fail['open'] -= 1; fs.trace.append(('open-failed', nm, mode)); return NULL
+    if rd and not wr and nm not in fs.files:
+        fs.trace.append(('open-failed', nm, mode)); _set_errno(I, ENOENT); return NULL
+    if wr and (trunc or not (rd or app)):
+        fs.files[nm] = []; fs.trace.append(('open-trunc', nm, mode))
+    else:
+        fs.files.setdefault(nm, []); fs.trace.append(('open', nm, mode))
+    hid = fs.next_id; fs.next_id += 1
+    fs.handles[hid] = {'name': nm, 'pos': len(fs.files[nm]) if app else 0, 'mode': mode}
+    I.store(a[0], ('int', hid), 8)
+    return a[0]
+@ext('_ZNSt12__basic_fileIcE5closeEv')
+def _bf_close(I, a):
+    fs = _fs(I); h = _bf_handle(I, a[0])
+    if h is None: return NULL
+    fs.trace.append(('close', h['name'], None))
+    hid = I.load(a[0], 8, 'ptr')[1]; fs.handles.pop(hid, None)
+    I.store(a[0], NULL, 8)
+    return a[0]
+def _bf_write(I, h, p, n):
+    fs = _fs(I)
+    bs = I.read_bytes(p, n) if n else []
+    data = fs.files.setdefault(h['name'], [])
+    pos = h['pos']
+    if pos > len(data): data.extend([0] * (pos - len(data)))
+    data[pos:pos + n] = bs; h['pos'] = pos + n
+    fs.trace.append(('write', h['name'], n))
+@ext('_ZNSt12__basic_fileIcE6xsputnEPKcl')
+def _bf_xsputn(I, a):
+    h = _bf_handle(I, a[0])
+    if h is None: return mask(-1, 64)
+    n = conc(I, a[2], 'write length'); _bf_write(I, h, a[1], n); return n
+@ext('_ZNSt12__basic_fileIcE8xsputn_2EPKclS2_l')
+def _bf_xsputn2(I, a):
+    h = _bf_handle(I, a[0])
+    if h is None: return mask(-1, 64)
+    n1 = conc(I, a[2], 'write length'); n2 = conc(I, a[4], 'write length')
+    _bf_write(I, h, a[1], n1); _bf_write(I, h, a[3], n2); return n1 + n2
+@ext('_ZNSt12__basic_fileIcE6xsgetnEPcl')
+def _bf_xsgetn(I, a):
+    fs = _fs(I); h = _bf_handle(I, a[0])
+    if h is None: return mask(-1, 64)
+    n = conc(I, a[2], 'read length'); data = fs.files.get(h['name'], [])
+    k = max(0, min(n, len(data) - h['pos']))
+    if k: I.write_bytes(a[1], data[h['pos']:h['pos'] + k])
+    h['pos'] += k; fs.trace.append(('read', h['name'], k))
+    return k
+@ext('_ZNSt12__basic_fileIcE7seekoffElSt12_Ios_Seekdir')
+def _bf_seekoff(I, a):
+    fs = _fs(I); h = _bf_handle(I, a[0])
+    if h is None: return mask(-1, 64)
+    off = sext(a[1], 64); way = a[2]; size = len(fs.files.get(h['name'], []))
+    base = 0 if way == 0 else (h['pos'] if way == 1 else size)
+    np_ = base + off
+    if np_ < 0: return mask(-1, 64)
+    h['pos'] = np_; return np_
+@ext('_ZNSt12__basic_fileIcE9showmanycEv')
+def _bf_showmanyc(I, a):
+    fs = _fs(I); h = _bf_handle(I, a[0])
+    if h is None: return 0
+    return max(0, len(fs.files.get(h['name'], [])) - h['pos'])
+@ext('_ZNSt12__basic_fileIcE4syncEv')
+def _bf_sync(I, a): return 0
+@ext('_ZNSt7codecvtIcc11__mbstate_tEC2Em', '_ZNSt7codecvtIcc11__mbstate_tEC1Em', '_ZNSt7codecvtIcc11__mbstate_tED2Ev', '_ZNSt7codecvtIcc11__mbstate_tED1Ev', '_ZNSt7codecvtIcc11__mbstate_tED0Ev')
+def _codecvt_cd(I, a): return None
+
+# harness access to the file-system model
+@ext('verif_fs_exists')
+def _v_fs_exists(I, a): return 1 if I.cstr(a[0]) in _fs(I).files else 0
+@ext('verif_fs_size')
+def _v_fs_size(I, a): return len(_fs(I).files.get(I.cstr(a[0]), []))
+@ext('verif_fs_put')
+def _v_fs_put(I, a):
+    # void verif_fs_put(const char *name, const char *data, long n): create a file with the given content
+    n = a[2]; _fs(I).files[I.cstr(a[0])] = I.read_bytes(a[1], n) if n else []; return None
+@ext('verif_fs_truncate')
+def _v_fs_trunc(I, a):
+    fs = _fs(I); nm = I.cstr(a[0]); n = conc(I, a[1], 'truncation offset')
+    if nm in fs.files: fs.files[nm] = fs.files[nm][:n]
+    return None
+@ext('verif_fs_fail')
+def _v_fs_fail(I, a):
+    _fs(I).fail[I.cstr(a[0])] = a[1]; return None
+@ext('verif_fs_trace_begin')
+def _v_fs_tb(I, a):
+    _fs(I).trace = []; return None
+@ext('verif_fs_crash_consistent')
+def _v_fs_cc(I, a):
+    """int verif_fs_crash_consistent(const char *name, const char *backup): replays the recorded operation trace and, at every crash point
+    (before each operation, and inside each write), asks whether name or backup holds a complete state.  A file is complete when it was
+    closed after its last truncating open and all the writes in between.  Returns the number of crash points at which neither is complete
+    (counted only once a first complete state exists)."""
+    fs = _fs(I); name = I.cstr(a[0]); backup = I.cstr(a[1])
+    state = dict(I.ext.get('fs_initial_complete', {}))     # name -> complete?
+    exists = set(state)
+    have_first = any(state.values())
+    bad = 0; points = 0; detail = []
+    def crash_point(tag):
+        nonlocal bad, points
+        if not have_first: return
+        points += 1
+        if not ((name in exists and state.get(name)) or (backup in exists and state.get(backup))):
+            bad += 1; detail.append(tag)
+    for i, (op, nm, extra) in enumerate(fs.trace):
+        crash_point('before %d:%s %s' % (i, op, nm))
+        if op == 'open-trunc': exists.add(nm); state[nm] = False
+        elif op == 'open': exists.add(nm); state[nm] = state.get(nm, False) and False
+        elif op == 'write':
+            if extra and extra > 1: crash_point('inside %d:write %s' % (i, nm))
+        elif op == 'close':
+            state[nm] = True
+            if nm == name or nm == backup: have_first = True
+        elif op == 'rename':
+            if nm in exists:
+                exists.discard(nm); exists.add(extra); state[extra] = state.pop(nm, False)
+        elif op == 'remove': exists.discard(nm); state.pop(nm, None)
+    crash_point('after the last operation')
+    I.ext['fs_crash_report'] = {'points': points, 'bad': bad, 'detail': detail[:6], 'trace': [(o, n) for (o, n, e) in fs.trace][:40]}
+    I.notes.append('crash points examined: %d, without a complete state: %d' % (points, bad))
+    return bad
